@@ -276,6 +276,9 @@ def main(mod, argv):
             cases.append(Case(read_replay(p), 'corpus:' + os.path.basename(p)))
         cases.extend(mod.cases(tier, a.seed, rng))
         failures, stats = execute(ctx, cases)
+        if hasattr(mod, 'relevant'):
+            # a check that re-runs the inputs of other families judges only its own kind of failure
+            failures = [f for f in failures if mod.relevant(f)]
 
         known = [k for k in load_known() if k.get('property') == pid and k.get('status') == 'known']
         seen_known = {}
